@@ -231,10 +231,10 @@ def run_child_cases(exe, scenario, seed, tier, shard, nshards, extra=None, timeo
     return cases, summaries, notes
 
 
-def run_sharded(exe, scenario, seed, tier, nshards, extra=None, timeout=900, env=None, prefix=None):
+def run_sharded(exe, scenario, seed, tier, nshards, extra=None, timeout=900, env=None, prefix=None, stall=None):
     cases, summaries, notes = [], [], []
     with concurrent.futures.ThreadPoolExecutor(max_workers=nshards) as ex:
-        futs = [ex.submit(run_child_cases, exe, scenario, seed, tier, s, nshards, extra, timeout, None, 400, env, prefix) for s in range(nshards)]
+        futs = [ex.submit(run_child_cases, exe, scenario, seed, tier, s, nshards, extra, timeout, None, 400, env, prefix, stall) for s in range(nshards)]
         for f in futs:
             c, s, n = f.result()
             cases += c
